@@ -449,6 +449,19 @@ impl<'c> G<'c> {
     }
 
     fn object(&self, s: &mut Src, depth: usize, with_index: bool) -> D {
+        // now and then every property is its own key as a string literal ({ a: "a"; b: "b" }): what the mapped type
+        // `{ [K in "a" | "b"]: K }` denotes
+        if !with_index && s.chance(1, 40) {
+            let n = s.range(1, 3);
+            let mut props: Vec<Prop> = vec![];
+            for _ in 0..n {
+                let key = s.pick(&KEYS).to_string();
+                if !props.iter().any(|p| p.key == key) {
+                    props.push(Prop { ty: D::StrLit(key.clone()), key, optional: false });
+                }
+            }
+            return D::Object { props, index: None };
+        }
         if with_index {
             // TypeScript requires every named property to be assignable to the index signature's value type:
             // named properties (required) repeat the value type, so the program is well-formed by construction.
